@@ -25,7 +25,7 @@ func init() { core.Register(prop{}) }
 func (prop) ID() string    { return "C02" }
 func (prop) Level() string { return "exploration" }
 func (prop) Rule() string {
-	return "scenario = a batch of <=64 link-layer frames (field-boundary enumeration of Ethernet/IPv4/TCP/UDP/ICMP/ARP headers, all 3-byte TCP option layouts over a boundary alphabet, longer option layouts, seeded random frames) or one flood history (70k half-open attempts, mixed with RST/FIN/ACK for unknown tuples) under one ARP/route configuration, followed by a well-formed UDP probe. Non-trivial = the probe's udp event was observed after the batch (the real receive loop consumed every frame); distinct by sha256 of the batch. ARP/route table shapes: peers resolved; default route through a resolved gateway; nothing; default route through an unresolved gateway; on-link route (gateway 0.0.0.0); mixed (peer unresolved behind a narrower route through an unresolved gateway). The enumerated frames are also run with the listener option do_arp=true applied through the configuration decoder. Port sweeps: one peer probes 30000 tcp ports, another 1500 udp ports, a third 300, then all stay quiet for 6.5 s (the scan detector reports a peer after five quiet seconds) and the listener must still answer; a second round of 1100 ports follows."
+	return "scenario = a batch of <=64 link-layer frames (field-boundary enumeration of Ethernet/IPv4/TCP/UDP/ICMP/ARP headers, all 3-byte TCP option layouts over a boundary alphabet, longer option layouts, seeded random frames) or one flood history (70k half-open attempts, mixed with RST/FIN/ACK for unknown tuples) under one ARP/route configuration, followed by a well-formed UDP probe. Non-trivial = the probe's udp event was observed after the batch (the real receive loop consumed every frame); distinct by sha256 of the batch. ARP/route table shapes: peers resolved; default route through a resolved gateway; nothing; default route through an unresolved gateway; on-link route (gateway 0.0.0.0); mixed (peer unresolved behind a narrower route through an unresolved gateway). The enumerated frames are also run with the listener option do_arp=true applied through the configuration decoder. Port sweeps: one peer probes 30000 tcp ports, another 1500 udp ports, a third 300, then all stay quiet for 6.5 s (the scan detector reports a peer after five quiet seconds) and the listener must still answer; a second round of 1100 ports follows. The enumerated frames include the tagging and encapsulating ethertypes (802.1Q, QinQ, MPLS, PPPoE, LLDP) with payloads of 0..5 bytes."
 }
 func (prop) Assumptions() []string {
 	return []string{
